@@ -25,7 +25,7 @@ type Clause struct {
 func (c *Clause) hasTag(p string) bool {
 	n := 0
 	for _, t := range c.Tags {
-		if strings.HasPrefix(t, "g:") || t == "trusted" {
+		if strings.HasPrefix(t, "g:") || t == "trusted" || t == "ghostdef" {
 			continue
 		}
 		n++
